@@ -1,0 +1,26 @@
+//go:build verif
+
+package redisemu
+
+import "sync/atomic"
+
+// VerifHook is a test-installed callback invoked at named points of the block/wake protocol
+// and of the snapshot writer. It exists only in builds with the `verif` tag.
+type VerifHook func(point string, id int64, n int)
+
+var verifHook atomic.Pointer[VerifHook]
+
+// SetVerifHook installs (or, with nil, removes) the callback.
+func SetVerifHook(h VerifHook) {
+	if h == nil {
+		verifHook.Store(nil)
+	} else {
+		verifHook.Store(&h)
+	}
+}
+
+func verifPoint(point string, id int64, n int) {
+	if h := verifHook.Load(); h != nil {
+		(*h)(point, id, n)
+	}
+}
